@@ -235,7 +235,7 @@ type Engine struct {
 	replayCache   map[string]*replayResult
 	lastParams    []*Val
 	stableFields  []string
-	tracked       map[string]bool // tracked struct types (typeStr form) for this property
+	tracked       map[string]bool              // tracked struct types (typeStr form) for this property
 	baseLocals    map[string]map[string]string // baseline: function -> variable name -> signature
 	curLocals     map[string]map[string]string
 }
